@@ -11,7 +11,7 @@ from .walk import Walker, close, distance
 
 SHOOT = [('ms', 'rk'), ('ms', 'euler'), ('ss', 'rk'), ('ss', 'euler'), ('ms', 'next'), ('ss', 'next')]
 FIXED_GRIDS = ['uniform', 'geometric', 'geometric_local', 'data']
-LOC_GRIDS = ['free', 'uniform_locT', 'uniform_locT0', 'geometric_locT', 'uniform_locboth', 'geometric_locT0']
+LOC_GRIDS = ['free', 'uniform_locT', 'uniform_locT0', 'geometric_locT', 'uniform_locboth', 'geometric_locT0', 'free_locT0']
 HORIZ = ['num', 'freeT', 'freet0', 'freeboth', 'param']
 
 
@@ -149,7 +149,7 @@ class C04(NlpCheck):
     profiles = [
         ("constraint-rows-all-methods",
          {'methods': ALLM, 'grids': FIXED_GRIDS + ['free', 'uniform_locT'], 'horizon': ['num', 'freeT', 'param'],
-          'obj_kinds': ['at_tf'], 'ncons': (1, 4), 'scale_prob': 0.4, 'offset_prob': 0.0, 'inf_bounds_prob': 0.6, 'nrows': [1, 1, 2, 2, 3],
+          'obj_kinds': ['at_tf'], 'ncons': (1, 4), 'scale_prob': 0.4, 'offset_prob': 0.0, 'inf_bounds_prob': 0.6, 'nrows': [1, 1, 2, 2, 3], 'both_ends_prob': 0.5,
           'Ns': [1, 2, 2, 3, 3, 4], 'Ms': [1, 1, 2, 3], 'degrees': [1, 2, 3]}, 40, 500),
         ("offsets",
          {'methods': ALLM, 'grids': ['uniform', 'geometric'], 'horizon': ['num'],
@@ -664,7 +664,7 @@ def impl_vs_impl(chk, bA, bB, xv, pA, pB, what):
 class C09(NlpCheck):
     pid = "C09"
     uses_generated = True
-    slices = ["parametric-nlp", "shifted-operands-with-interval-parameters", "constants-written-in", "set_value-histories", "matrix-valued-parameters", "horizon-parameter-histories"]
+    slices = ["parametric-nlp", "shifted-operands-with-interval-parameters", "constants-written-in", "set_value-histories", "matrix-valued-parameters", "horizon-parameter-histories", "template-instances"]
     tags = None
     whole = True
     want_f = True
@@ -693,6 +693,68 @@ class C09(NlpCheck):
         self.history_slice()
         self.matrix_parameter_slice()
         self.horizon_parameter_history_slice()
+        self.template_instances_slice()
+
+    def template_instances_slice(self):
+        """two instances of ONE template with different values for the template's parameter: each instance keeps its own value, before the
+        first transcription and when one of them is replaced afterwards (a later set_value replaces that parameter's value only)"""
+        import casadi as ca
+        from .props2 import gen_multi, build_multi, rnd
+        n = 4 if self.tier == 'quick' else 30
+        done = 0
+        tries = 0
+        while done < n and tries < 40 * n:
+            tries += 1
+            md = gen_multi(self.rng, {'features': {'p': 1.0, 'qstate': 0.0, 'dae': 0.0, 'time': 0.3}})
+            clones = [i for i, sd in enumerate(md['stages']) if sd.get('clone_of') is not None]
+            if len(clones) < 2:
+                continue
+            done += 1
+            try:
+                mb = build_multi(copy.deepcopy(md))
+            except (ZeroDivisionError, OverflowError):
+                continue
+            except Exception as ex:
+                self.slice_ok["template-instances"] = False
+                self.violation("a stage tree with two instances of one template raised %s: %s" % (type(ex).__name__, str(ex)[:200]), {"md": md}, {"kind": "exception", "what": "template-instances"})
+                return
+
+            def values_in_effect():
+                with B.quiet():
+                    pcur = [Fr(v) for v in ca.DM(mb.opti.debug.value(mb.opti.p, mb.opti.initial())).full().flatten().tolist()]
+                out = {}
+                for i in clones:
+                    b = mb.bs[i]
+                    xv = [rnd(self.rng) for _ in range(mb.nx_opti)]
+                    fv = [rnd(self.rng) for _ in range(sum(s_.numel() for s_ in b.free))] if b.free else None
+                    out[i] = [float(v) for v in B.eval_phys(b, xv, pcur, fv)['P'][0]]
+                return out
+            try:
+                got = values_in_effect()
+                want = {i: list(mb.child_pvals[i]) for i in clones}
+                err = None
+                if got != want:
+                    err = "values in effect %s, values given to the instances %s" % (got, want)
+                else:
+                    # replace the first parameter of the LAST instance only, after the transcription
+                    i = clones[-1]
+                    q = mb.bs[i].params[''][0]
+                    with B.quiet():
+                        mb.bs[i].ocp.set_value(q, ca.DM([9.5] * q.numel()))
+                    for r in range(q.numel()):
+                        want[i][r] = 9.5
+                    got = values_in_effect()
+                    if got != want:
+                        err = "after set_value on instance %d only: values in effect %s, expected %s" % (i, got, want)
+            except (ZeroDivisionError, OverflowError, KeyError):
+                continue
+            self.evaluations += 1
+            self.signatures.add("tmpl-%d" % done)
+            self.count("template-instances")
+            if err:
+                self.slice_ok["template-instances"] = False
+                self.violation("instances of one template do not keep their own parameter values: " + err, {"md": md}, {"kind": "template-instances"})
+                return
 
     def horizon_parameter_history_slice(self):
         """a horizon given by parameters, values replaced AFTER the first transcription: objective, rows AND the starting point (guesses
@@ -2321,7 +2383,7 @@ def sym_offsets(sizes):
 class C10(Check):
     pid = "C10"
     uses_generated = True
-    slices = ["starting-point", "nlp-unchanged-by-guesses", "spline-coefficients"]
+    slices = ["starting-point", "nlp-unchanged-by-guesses", "spline-coefficients", "guesses-survive-retranscription"]
 
     def explanation(self):
         return ("theorems: last call wins / frame property of the guess store; the interval loop (final node first, then every interval) "
@@ -2360,6 +2422,11 @@ class C10(Check):
         self.sampling_methods_slice()
         if not self.violations:
             self.spline_slice()
+        if not self.violations:
+            # guesses for algebraic variables under a shooting method with a DAE integrator, across a solve, a live set_initial and a
+            # re-transcription: the same starting data as without the intermediate solve
+            from .props2 import dae_shooting_history_slice
+            dae_shooting_history_slice(self, "guesses-survive-retranscription")
 
     def spline_slice(self):
         """SplineMethod: the decision variables are the B-spline coefficients of the head of each integrator chain; the time a
